@@ -36,9 +36,17 @@ def ints(a):
     return [int(v) for v in np.asarray(a).ravel()]
 
 
-def chunked(values, shape, chunks):
-    arr = np.array(values, dtype=np.float64).reshape(shape)
+def chunked(values, shape, chunks, dtype=np.float64):
+    arr = np.array(values, dtype=np.float64).reshape(shape).astype(dtype)
     return da.from_array(arr, chunks=tuple(tuple(c) for c in chunks))
+
+
+def wrap(arr, variant):
+    """alternative entry point: the data handed over as an xarray.DataArray"""
+    if variant == "xr":
+        import xarray as xr
+        return xr.DataArray(arr)
+    return arr
 
 
 def run_case(case):
@@ -53,6 +61,9 @@ def run_case(case):
     fill, ebv, ffill = fh(case["fill"]), fh(case["ebv"]), fh(case["ffill"])
     skipna = case["skipna"]
     cats = case["cats"]
+    variant = case.get("variant", "dask")
+    idt = np.int64 if variant == "int" else np.float64
+    ddt = np.int64 if variant == "int" and not any(v != v for v in data) else np.float64
     outs = []
     for ch in case["chunkings"]:
         try:
@@ -66,13 +77,15 @@ def run_case(case):
             else:
                 px, py = r.prj(np.array(xs), np.array(ys))
             o["px"], o["py"] = hx(px), hx(py)
-            d = chunked(data, shape, ch["data"])
-            fd = chunked(fdata, shape, ch["fdata"])
+            d = chunked(data, shape, ch["data"], ddt)
+            fd = chunked(fdata, shape, ch["fdata"], idt)
+            o["fdata_chunks"] = [int(c) for c in fd.ravel().chunks[0]]
+            o["idx_chunks"] = [int(c) for c in r.idxs.chunks[0]]
             o["data_chunks"] = [int(c) for c in d.ravel().chunks[0]]
             lazy = [r.x_idxs, r.y_idxs, r.idxs, r.get_count(),
-                    r.get_sum(d, fill_value=fill, skipna=skipna, empty_bucket_value=ebv),
+                    r.get_sum(wrap(d, variant), fill_value=fill, skipna=skipna, empty_bucket_value=ebv),
                     r.get_average(d, fill_value=fill, skipna=skipna),
-                    r.get_min(fd), r.get_max(fd), r.get_abs_max(fd)]
+                    r.get_min(wrap(fd, variant)), r.get_max(wrap(fd, variant)), r.get_abs_max(wrap(fd, variant))]
             fr = r.get_fractions(fd, categories=cats, fill_value=ffill)
             o["cats"] = [float(k) for k in fr.keys()]
             res = da.compute(*(lazy + list(fr.values())))
@@ -82,6 +95,23 @@ def run_case(case):
                 o[nm] = hx(v)
             o["frac"] = [hx(v) for v in res[9:]]
             o["shape"] = [int(s) for s in r.get_count().shape]
+            if ch is case["chunkings"][0] and case.get("history"):
+                # a history of eager calls on ONE fresh object (self.idxs is re-chunked in place, self.counts is memoised)
+                r2 = cls(adef, lons, lats)
+                hist = []
+                for op, j in case["history"]:
+                    chj = case["chunkings"][j]
+                    if op == "count":
+                        hist.append({"op": op, "out": ints(r2.get_count().compute())})
+                    elif op == "sum":
+                        dj = chunked(data, shape, chj["data"], ddt)
+                        hist.append({"op": op, "lens": [int(c) for c in dj.ravel().chunks[0]],
+                                     "out": hx(r2.get_sum(dj, fill_value=fill, skipna=skipna, empty_bucket_value=ebv).compute())})
+                    else:
+                        fj = chunked(fdata, shape, chj["fdata"], idt)
+                        f = r2.get_min if op == "min" else r2.get_max
+                        hist.append({"op": op, "lens": [int(c) for c in fj.ravel().chunks[0]], "out": hx(f(fj).compute())})
+                o["history"] = hist
             outs.append(o)
         except Exception as e:  # noqa
             outs.append({"error": type(e).__name__ + ": " + str(e)[:200]})
